@@ -271,6 +271,9 @@ class Interp:
             d[kv.text] = self.eval(v, st)
         return st.alloc(CDict(d), "cdict")
 
+    def e_DictComp(self, node, st):
+        return lib.dict_comprehension(self, st, node)
+
     def e_Lambda(self, node, st):
         return Closure([a.arg for a in node.args.args], node.body, dict(st.env))
 
